@@ -56,6 +56,14 @@ def directional_check(ctx, cost, x, grad, v, bucket, what, rtol=1e-6, atol=0.0):
         cands.append(fd)
         scale = max(abs(fd), abs(pred), 1e-9 * (abs(cp) + abs(cm)) / h if h > 0 else 0, 1e-300)
         best = min(best, abs(fd - pred) / scale)
+    # a fourth-order (five-point) estimate as well: strongly curved costs (small softmax temperatures, steep activations) leave a
+    # second-order truncation error of a few 1e-6 in the two-point estimates above
+    for h in (1e-3 * xs, 1e-4 * xs):
+        c2p, cp, cm, c2m = cost(x + 2 * h * v), cost(x + h * v), cost(x - h * v), cost(x - 2 * h * v)
+        fd = (-c2p + 8 * cp - 8 * cm + c2m) / (12 * h)
+        cands.append(fd)
+        scale = max(abs(fd), abs(pred), 1e-9 * (abs(cp) + abs(cm)) / h, 1e-300)
+        best = min(best, abs(fd - pred) / scale)
     # absolute floor: both essentially zero
     gnorm = float(np.linalg.norm(grad) * np.linalg.norm(v))
     ok = best <= rtol or (abs(pred) <= 1e-9 * max(gnorm, 1e-300) and all(abs(c) <= 1e-7 * max(gnorm, 1e-12) for c in cands)) \
